@@ -289,6 +289,19 @@ class ModelFile:
     def tell(self):
         return self.pos
 
+    def fileno(self):
+        return self          # the model's os.* functions accept the file object as its descriptor
+
+    def flush(self):
+        pass
+
+    def truncate(self, size=None):
+        self.fs._tick("truncate", self.path)
+        size = self.pos if size is None else size
+        d = self.fs.files[self.path]
+        self.fs.files[self.path] = SBytes(list(d.bs)[:size] + [0] * max(0, size - len(d)))
+        return size
+
 
 class GzipModelFile:
     """gzip.open(path, mode) on the model file system."""
@@ -431,8 +444,39 @@ class Env:
             if q in fs.files:
                 raise FileExistsError(_errno.EEXIST, "File exists", q)
             fs.mkdir_p(q)
+        def posix_fallocate(fd, offset, length):
+            f = fd if isinstance(fd, ModelFile) else None
+            if f is None:
+                raise OSError(_errno.EBADF, "Bad file descriptor")
+            fs._tick("fallocate", f.path)
+            d = fs.files[f.path]
+            if len(d) < offset + length:
+                fs.files[f.path] = SBytes(list(d.bs) + [0] * (offset + length - len(d)))
+
+        def ftruncate(fd, length):
+            f = fd if isinstance(fd, ModelFile) else None
+            if f is None:
+                raise OSError(_errno.EBADF, "Bad file descriptor")
+            fs._tick("ftruncate", f.path)
+            d = fs.files[f.path]
+            fs.files[f.path] = SBytes(list(d.bs)[:length] + [0] * max(0, length - len(d)))
+
+        def remove(p):
+            fs.unlink(p)
+
+        def replace(a, b):
+            fs._tick("replace", a)
+            a_, b_ = _norm(a), _norm(b)
+            if a_ not in fs.files:
+                raise FileNotFoundError(_errno.ENOENT, "No such file or directory", a_)
+            fs.files[b_] = fs.files.pop(a_)
+
+        def fsync(fd):
+            fs._tick("fsync", getattr(fd, "path", "?"))
         self.os = types.SimpleNamespace(path=osp, makedirs=makedirs, strerror=real_os.strerror, sep="/",
-                                        fspath=real_os.fspath, environ=real_os.environ)
+                                        fspath=real_os.fspath, environ=real_os.environ, posix_fallocate=posix_fallocate,
+                                        ftruncate=ftruncate, remove=remove, unlink=remove, replace=replace, rename=replace,
+                                        fsync=fsync)
 
         def gz_open(p, mode="rb", compresslevel=9, **kw):
             return GzipModelFile(fs, p, mode, compresslevel)
